@@ -65,4 +65,21 @@ CHECKS = {
             {"pkg": "core", "run": "^TestC04KnownProbes$", "quick": 1, "thorough": 1, "rapid": False},
         ],
     },
+    "C09": {
+        "level": "exploration",
+        "assumptions": ["plugin sets are bounded (<= ~12 plugins); PreReadHeader is not part of the compared trace because it cannot be attributed to a message"],
+        "runs": [
+            {"pkg": "core", "run": "^TestC09PluginOrder$", "quick": 1200, "thorough": 50000, "shards_thorough": 8},
+        ],
+    },
+    "C10": {
+        "level": "exploration",
+        "assumptions": ["handler programs are drawn from a fixed library of controllers/functions (Go cannot create methods at run time)",
+                        "expected names are computed with the public mapper functions; the mapper itself is checked against the documented table and its word templates"],
+        "runs": [
+            {"pkg": "core", "run": "^TestC10Routes$", "quick": 600, "thorough": 30000, "shards_thorough": 8},
+            {"pkg": "core", "run": "^TestC10MapperFunction$", "quick": 20000, "thorough": 2000000, "shards_thorough": 8},
+            {"pkg": "core", "run": "^TestC10MapperTable$", "quick": 1, "thorough": 1, "rapid": False},
+        ],
+    },
 }
